@@ -177,7 +177,17 @@ func (c *Cluster) Handler(ctx context.Context, request []byte, next core.NextIOH
 		if idempotent && (retried < retry) {
 			interval := c.OnRetry(ctx)
 			if interval > 0 {
-				time.Sleep(interval)
+				// the wait ends with the call's own context
+				timer := time.NewTimer(interval)
+				select {
+				case <-ctx.Done():
+				case <-timer.C:
+				}
+				timer.Stop()
+			}
+			if ctx.Err() != nil {
+				// cancelled or past its deadline: no further attempt
+				return
 			}
 			response, err = c.Handler(ctx, request, next)
 		}
